@@ -174,6 +174,28 @@ impl<T: CoordNum> Rect<T> {
 //@entry
         proof { T::ax_obeys(); T::ax_order(); }
 //@end
+// the setters panic (documented) when the new corner would break min <= max: as contracts, the panic is an obligation,
+// so the precondition is "the new bounds are valid" and the postcondition the invariant
+//@fn geo-types/src/geometry/rect.rs | impl<T: CoordNum> Rect<T> | assert_valid_bounds | id=C18.V.rect_assert_valid_bounds
+//@spec
+    requires wf_rect(*self),
+//@end
+//@fn geo-types/src/geometry/rect.rs | impl<T: CoordNum> Rect<T> | set_min | id=C18.V.rect_set_min
+//@spec
+    requires
+        forall|c: C| call_requires(C::into, (c,)),
+        forall|c: Coord<T>| call_ensures(C::into, (min,), c) ==> c.x.val() <= rmax(*old(self)).x.val() && c.y.val() <= rmax(*old(self)).y.val(),
+    ensures
+        wf_rect(*final(self)), call_ensures(C::into, (min,), rmin(*final(self))), rmax(*final(self)) == rmax(*old(self)),
+//@end
+//@fn geo-types/src/geometry/rect.rs | impl<T: CoordNum> Rect<T> | set_max | id=C18.V.rect_set_max
+//@spec
+    requires
+        forall|c: C| call_requires(C::into, (c,)),
+        forall|c: Coord<T>| call_ensures(C::into, (max,), c) ==> rmin(*old(self)).x.val() <= c.x.val() && rmin(*old(self)).y.val() <= c.y.val(),
+    ensures
+        wf_rect(*final(self)), call_ensures(C::into, (max,), rmax(*final(self))), rmin(*final(self)) == rmin(*old(self)),
+//@end
 }
 
 impl<T: CoordNum> Rect<T> {
@@ -231,4 +253,5 @@ impl<T: CoordNum> Triangle<T> {
 }
 
 } // verus!
+static RECT_INVALID_BOUNDS_ERROR: &str = "Failed to create Rect: 'min' coordinate's x/y value must be smaller or equal to the 'max' x/y value";
 fn main() {}
